@@ -361,9 +361,62 @@ func c12JoinOnly(c *core.C) {
 	c.Count("join_only_groups", 1)
 }
 
+// c12IterationLimit: a chain of 4 rules in the authorizer, supplied in dependency order, in reverse
+// order and shuffled, under every iteration limit from 1 to 8: the number of passes a chain of
+// depth d needs does not depend on the order in which its rules are written, so the outcome
+// (authorized / iteration limit) is the same for every order at every limit.
+func c12IterationLimit(c *core.C) {
+	r := c.R
+	x := ast.Var("x")
+	rules := []ast.Rule{{Head: ast.P("lim_1", x), Body: []ast.Pred{ast.P("lim_0", x)}}}
+	for i := 1; i < 4; i++ {
+		rules = append(rules, ast.Rule{Head: ast.P(fmt.Sprintf("lim_%d", i+1), x), Body: []ast.Pred{ast.P(fmt.Sprintf("lim_%d", i), x)}})
+	}
+	rev := []ast.Rule{}
+	for i := len(rules) - 1; i >= 0; i-- {
+		rev = append(rev, rules[i])
+	}
+	orders := map[string][]ast.Rule{"dependency order": rules, "reverse order": rev, "shuffled": shuffled(r, rules)}
+	tok, err := buildScenarioToken(c.Seed, fmt.Sprintf("c12lim-%d", c.Idx), []ast.Block{{Facts: []ast.Pred{ast.P("filler", ast.Int(1))}}})
+	if err != nil {
+		return
+	}
+	for lim := 1; lim <= 8; lim++ {
+		res := map[string]lib.Class{}
+		for _, name := range []string{"dependency order", "reverse order", "shuffled"} {
+			var cl lib.Class
+			if pi := lib.Try(func() {
+				az, err := tok.B.AuthorizerFor(biscuit.WithSingularRootPublicKey(tok.Pub), biscuit.WithWorldOptions(datalog.WithMaxIterations(lim), datalog.WithMaxFacts(100000), datalog.WithMaxDuration(60*time.Second)))
+				if err != nil {
+					cl = lib.FAIL
+					return
+				}
+				az.AddFact(ast.P("lim_0", ast.Int(1)).LibFact())
+				for _, rl := range orders[name] {
+					az.AddRule(rl.Lib())
+				}
+				az.AddPolicy(allowAll.Lib())
+				cl = lib.Classify(az.Authorize())
+			}); pi != nil {
+				cl = lib.PANIC
+			}
+			res[name] = cl
+			c.Eval(1)
+		}
+		if res["reverse order"] != res["dependency order"] || res["shuffled"] != res["dependency order"] {
+			c.Violate("presentation-changes-outcome/rule-order-under-iteration-limit", fmt.Sprintf("WithMaxIterations(%d), chain of 4 rules: %v", lim, res), map[string]any{"limit": lim, "outcomes": res})
+		}
+		c.NT(fmt.Sprintf("iteration-limit/%d/%s", lim, res["dependency order"]))
+	}
+	c.Count("iteration_limit_groups", 1)
+}
+
 func c12Run(c *core.C) {
 	r := c.R
 	c12JoinOnly(c)
+	if c.Idx%4 == 0 {
+		c12IterationLimit(c)
+	}
 	for rep := 0; rep < 3; rep++ {
 		s := gen.NewScenario(r, 3, scenOpts)
 		c12AddRuleChain(r, s)
@@ -766,6 +819,22 @@ func c18Run(c *core.C) {
 			f.Terms = append(f.Terms, gen.SetOf(r, gen.Pick(r, gen.ScalarKinds), 1+r.Intn(3), true))
 			content.Facts = append(append([]ast.Pred{}, content.Facts...), f)
 		}
+		if rep == 0 {
+			// a chain that needs 120 passes (above the default iteration limit, far below the
+			// configured one) and a policy list that starts with queries without a body that do
+			// NOT match (deny if false; deny if 2 < 1 or 3 < 1): neither decides, everything
+			// after them still counts
+			fs, rs := ruleChainProg(120)
+			content.Facts = append(append([]ast.Pred{}, content.Facts...), fs...)
+			content.Rules = append(append([]ast.Rule{}, content.Rules...), rs...)
+			content.Checks = append(append([]ast.Check{}, content.Checks...), ast.Check{Queries: []ast.Rule{{Head: ast.P("query"), Body: []ast.Pred{ast.P("step120")}}}})
+			no := func(e ast.Expr) ast.Rule { return ast.Rule{Head: ast.P("query"), Exprs: []ast.Expr{e}} }
+			lt := func(a, b int64) ast.Expr {
+				return ast.Expr{ast.OV(ast.Int(a)), ast.OV(ast.Int(b)), ast.OB(int(ast.BLessThan))}
+			}
+			content.Policies = append([]ast.Policy{{Allow: false, Queries: []ast.Rule{no(ast.Expr{ast.OV(ast.Bool(false))})}}, {Allow: r.Intn(2) == 0, Queries: []ast.Rule{no(lt(2, 1)), no(lt(3, 1))}}}, content.Policies...)
+			c.Count("contents_with_deep_chain_and_bodiless_policies", 1)
+		}
 		if r.Intn(2) == 0 {
 			// date constants before 1970 (negative Unix time) and in the year 9999 inside checks and
 			// policies: they travel through the snapshot like any other constant
@@ -863,8 +932,14 @@ func c18Run(c *core.C) {
 			c.Violate("load-own-snapshot-refused", lerr.Error(), desc)
 			continue
 		}
-		if direct.Class == lib.LIMIT || restored.Class == lib.LIMIT {
+		if direct.Class == lib.LIMIT && restored.Class == lib.LIMIT {
 			c.Inconc("limit sentinel under large limits")
+			continue
+		}
+		if direct.Class == lib.LIMIT || restored.Class == lib.LIMIT {
+			// both authorizers were created with the same (large) limits: one of them hitting a
+			// limit means the limits did not survive on that side
+			c.Violate("snapshot-changes-outcome/limits", fmt.Sprintf("direct %s (%s), restored %s (%s) - both authorizers were created with the same run limits", direct.Class, direct.Err, restored.Class, restored.Err), desc)
 			continue
 		}
 		if direct.Class != restored.Class {
